@@ -668,15 +668,18 @@ class FieldsJson(FieldValueBase):
         try:
             raw_values = json.loads(parsable.decode('ascii'), object_pairs_hook=collections.OrderedDict)
         except ValueError as e:  # json.decoder.JSONDecodeError is derived from ValueError
-            six.raise_from(InvalidValue(six.ensure_text(parsable, 'ascii'), cls, 'value'), e)
+            six.raise_from(InvalidValue(six.ensure_text(parsable, 'ascii', 'replace'), cls, 'value'), e)
 
         attr_fields_dict = attr.fields_dict(cls)
 
-        return cls(**{
-            attribute_name: raw_values[validator_class.get_canonical_name()]
-            for attribute_name, validator_class in cls._get_attr_to_validator_type_dict(attr_fields_dict).items()
-            if validator_class.get_canonical_name() in raw_values
-        }), len(parsable)
+        try:
+            return cls(**{
+                attribute_name: raw_values[validator_class.get_canonical_name()]
+                for attribute_name, validator_class in cls._get_attr_to_validator_type_dict(attr_fields_dict).items()
+                if validator_class.get_canonical_name() in raw_values
+            }), len(parsable)
+        except (TypeError, AttributeError) as e:
+            six.raise_from(InvalidValue(six.ensure_text(parsable, 'ascii', 'replace'), cls, 'value'), e)
 
     def compose(self):
         attr_fields_dict = attr.fields_dict(type(self))
